@@ -64,13 +64,107 @@ def gen_run(rng, solver='panoc', **over):
     return op
 
 
-def monitor(op_line, out_line, st):
+# ------------------------------------------------------------------ views: one layout for five solvers
+
+def fista_view(r):
+    """FISTA callbacks under the PANOC field names (no direction step q; `t` is the momentum parameter).
+    no-progress is measured on x̂ (fista.tpp compares `curr->x̂ == prev_x̂`), the first comparison is
+    against the starting point."""
+    r['np_key'] = 'xhat'
+    r['np_first_vs_x0'] = True
+    return r
+
+
+def pantr_view(r):
+    for cb in r['cbs']:
+        cb['have_gh'] = True          # the buffer is always passed; it is current at a loop head iff needed
+    r['np_key'] = 'x'
+    return r
+
+
+def ocp_view(r):
+    for cb in r['cbs']:
+        cb['x'] = cb['u']; cb['xhat'] = cb['uhat']
+        cb['yhat'] = []; cb['grad_psi_hat'] = []; cb['have_gh'] = False
+    r['out']['x'] = r['out']['u']
+    r['np_key'] = 'xu'
+    return r
+
+
+def parse(flavor, out_line):
+    if flavor in ('panoc', 'zerofpr'):
+        r = S.parse_out(out_line)
+        r['np_key'] = 'x'
+        return r
+    if flavor == 'pantr':
+        import loop_pantr
+        return pantr_view(loop_pantr.parse_out(out_line))
+    if flavor == 'fista':
+        import loop_fista
+        return fista_view(loop_fista.parse_out(out_line))
+    if flavor == 'ocp':
+        import loop_ocp
+        return ocp_view(loop_ocp.parse_out(out_line))
+    raise ValueError(flavor)
+
+
+def fmaxS(a, b):      # std::fmax: a NaN operand is ignored
+    if a != a:
+        return b
+    if b != b:
+        return a
+    return b if a < b else a
+
+
+def fminS(a, b):
+    if a != a:
+        return b
+    if b != b:
+        return a
+    return b if b < a else a
+
+
+def ocp_stop_crit(op, crit, cb):
+    """panoc-ocp.tpp calc_error_stop_crit in doubles, operation for operation (only the six supported
+    criteria).  ‖p‖² is the stage-wise accumulated value the solver stored (reported as norm_sq_p); the
+    unit-step variant accumulates stage by stage as eval_prox_impl does.  → (value, bit-exact?)"""
+    name = S.CRITS[crit]
+    p, gam = cb['p'], cb['gamma']
+    if name == 'ProjGradNorm':
+        return LP.norm_inf(p), True
+    if name == 'ProjGradNorm2':
+        return math.sqrt(cb['pTp']), True
+    if name == 'FPRNorm':
+        return LP.norm_inf(p) / gam, True
+    if name == 'FPRNorm2':
+        return math.sqrt(cb['pTp']) / gam, True
+    if name in ('ProjGradUnitNorm', 'ProjGradUnitNorm2'):
+        nu, N = op.nat('nu'), op.nat('N')
+        lb, ub = op.vec('Ulb'), op.vec('Uub')
+        u, g = cb['u'], cb['grad_psi']
+        p1, acc = [], 0.0
+        for t in range(N):
+            seg = [fminS(fmaxS(-1.0 * g[t * nu + i], lb[i] - u[t * nu + i]), ub[i] - u[t * nu + i])
+                   for i in range(nu)]
+            acc = acc + LP.sq_norm(seg)
+            p1 += seg
+        if name == 'ProjGradUnitNorm':
+            return LP.norm_inf(p1), True
+        return math.sqrt(acc), True
+    raise ValueError(name)
+
+
+def monitor(op_line, out_line, st, flavor='panoc'):
+    """Loop-level C06 facts on the outputs of the real solver, for every solver (`flavor` ∈ panoc, zerofpr,
+    pantr, fista, ocp — the callback layouts differ, the documented meaning does not)."""
     if out_line.startswith('exception') or out_line in ('bad-op', 'bad-direction'):
         return f'harness: {out_line[:100]}'
     op = S.Op.parse(op_line)
     if op.get('_op') != 'run':
         return None
-    r = S.parse_out(out_line)
+    if out_line.startswith('S exception'):
+        return None
+    r = parse(flavor, out_line)
     stx = r['stats']
     if stx['status'] == 'exception':
         return None
@@ -108,14 +202,17 @@ def monitor(op_line, out_line, st):
     if status == 'Interrupted' and not stop_landed:
         return 'Interrupted although stop() was never called'
     if status == 'NoProgress':
+        key = r.get('np_key', 'x')
         same = 0
         for k in range(len(cbs) - 1, 0, -1):
-            if cbs[k]['x'] == cbs[k - 1]['x']:
+            if cbs[k][key] == cbs[k - 1][key]:
                 same += 1
             else:
                 break
+        if r.get('np_first_vs_x0') and same == len(cbs) - 1 and cbs[0][key] == op.vec('x0'):
+            same += 1
         if not same > P['maxnp']:
-            return (f'NoProgress after only {same} consecutive iterations with unchanged x '
+            return (f'NoProgress after only {same} consecutive iterations with unchanged iterate '
                     f'(max_no_progress = {P["maxnp"]})')
         bump('noprogress_checked')
     # every earlier callback was Busy with ε above the tolerance, finite, k < max_iter
@@ -127,7 +224,7 @@ def monitor(op_line, out_line, st):
                     f'max_iter={P["maxiter"]}')
     # ---- ε = documented formula of the final iterate -------------------------------------------
     crit = P['crit']
-    need_gh = S.CRITS[crit] in ('ApproxKKT', 'ApproxKKT2', 'Ipopt')
+    need_gh = flavor != 'ocp' and S.CRITS[crit] in ('ApproxKKT', 'ApproxKKT2', 'Ipopt')
     fields = last['x'] + last['xhat'] + last['p'] + last['grad_psi'] + last['yhat'] + [last['gamma']] + \
         (last['grad_psi_hat'] if need_gh else [])
     if need_gh and not last['have_gh']:
@@ -135,7 +232,10 @@ def monitor(op_line, out_line, st):
     if not LP.finite(*fields):
         bump('eps_formula_skipped_nonfinite')
     else:
-        val, exact = LP.stop_crit(op, crit, last)
+        if flavor == 'ocp':
+            val, exact = ocp_stop_crit(op, crit, last)
+        else:
+            val, exact = LP.stop_crit(op, crit, last)
         d = LP.ulps(val, eps)
         if (exact and d != 0) or d > 4:
             return (f'{S.CRITS[crit]}: reported ε={eps!r} but the documented formula on the final '
